@@ -191,7 +191,9 @@ def scalar_arrays(obj, node, expected, out, path=""):
 
 def check_nplike(obj, node, expected):
     arrs = []
-    scalar_arrays(obj, node, expected, arrs)
+    nav = sut(scalar_arrays, obj, node, expected, arrs)
+    if is_raised(nav):
+        return fail("navigate_raised", f"reaching the arrays of scalars: {nav}", nav.key)
     for aobj, anode, ev, path in arrs:
         for meth in ("to_nplike", "to_nparray"):
             r = sut(getattr(aobj, meth))
